@@ -203,6 +203,20 @@ pub fn channel(rng: &mut StdRng, family: &str, bps: usize, n: usize) -> Vec<i32>
                 *x = if t < k { a } else { b };
             }
         }
+        f if f.starts_with("impnoise") => {
+            // quiet noise whose Rice quotients under parameter k are about 0..8 (they add up to 2^16 and more over a
+            // large block) plus ONE full-scale impulse whose quotient alone is 2^16 or more: 16-bit halves of
+            // quotient sums carry into each other
+            let k: u32 = f[8..].parse().unwrap_or(7);
+            let a = ((1i64 << k) * 4).min(hi / 8).max(1);
+            for x in v.iter_mut() {
+                *x = rng.gen_range(-a..=a) as i32;
+            }
+            if n > 10 {
+                let t = rng.gen_range(n / 4..n / 2);
+                v[t] = if rng.gen_bool(0.5) { hi as i32 } else { lo as i32 };
+            }
+        }
         "burst" => {
             // a quiet block with near-full-scale noise in one or two 64-sample partitions: those partitions want a
             // Rice parameter of bits_per_sample - 1 or more while the subframe as a whole still beats verbatim
